@@ -56,6 +56,10 @@ use uuid::Uuid;
 
 static LOG: Mutex<Vec<Value>> = Mutex::new(Vec::new());
 /// commanders registered by the running agent instance (target node -> commander)
+/// The stop trigger of the running instance: normally fired by the script's stop / restart action, but the
+/// instruction `trigstop` fires it from inside a handler, i.e. at an instant at which the agent is in the middle of
+/// a cycle (a stop request that arrives while a handler runs and a lane response is about to be written).
+static STOP_TX: Mutex<Option<trigger::Sender>> = Mutex::new(None);
 static COMMANDERS: Mutex<Vec<(String, swimos_agent::commander::Commander<TestAgent>)>> = Mutex::new(Vec::new());
 
 fn log(v: Value) {
@@ -253,6 +257,14 @@ fn instruction(context: HandlerContext<TestAgent>, ins: &str) -> Option<BoxEvent
             }
         }
         "stop" => context.stop().boxed(),
+        "trigstop" => context
+            .effect(|| {
+                if let Some(t) = STOP_TX.lock().take() {
+                    log(json!({"e": "stopping"}));
+                    t.trigger();
+                }
+            })
+            .boxed(),
         // ---- join lanes and hosted downlinks (configuration E, hosted downlinks / join lanes)
         // jadd jv <key> <node> <resp> | jmadd jm <link> <node> <resp>: add a downlink to the join lane; <resp> (retry |
         // abandon | delete) is what the join lifecycle answers when that link closes
@@ -1074,7 +1086,6 @@ struct Target {
 
 struct Instance {
     att_tx: mpsc::Sender<AgentAttachmentRequest>,
-    stop_tx: Option<trigger::Sender>,
     task: tokio::task::JoinHandle<Result<(), String>>,
     link_rx: mpsc::Receiver<LinkRequest>,
     http_tx: mpsc::Sender<swimos_api::agent::HttpLaneRequest>,
@@ -1134,7 +1145,8 @@ fn start_instance(cfg: &Value, store: &Option<RecordingStore>) -> Instance {
         None => task.run_agent().map(|r| r.map_err(|e| e.to_string())).boxed(),
     };
     let task = tokio::spawn(fut);
-    Instance { att_tx, stop_tx: Some(stop_tx), task, link_rx, http_tx }
+    *STOP_TX.lock() = Some(stop_tx);
+    Instance { att_tx, task, link_rx, http_tx }
 }
 
 fn counting(inner: ByteReader) -> CountingReader {
@@ -1576,7 +1588,7 @@ impl World {
                 let _ = inst.task.await;
                 log(json!({"e": "killed"}));
             } else {
-                if let Some(t) = inst.stop_tx.take() {
+                if let Some(t) = STOP_TX.lock().take() {
                     t.trigger();
                 }
                 // keep reading so that the shutdown's unlinked frames can be delivered
@@ -1816,13 +1828,17 @@ async fn run_script(case: &Value) {
             }
             "quiesce" => w.quiesce().await,
             "stop" => {
-                log(json!({"e": "stopping"}));
+                if STOP_TX.lock().is_some() {
+                    log(json!({"e": "stopping"}));
+                }
                 w.stop_instance(false).await;
             }
             "kill" => w.stop_instance(true).await,
             "restart" => {
                 if w.inst.is_some() {
-                    log(json!({"e": "stopping"}));
+                    if STOP_TX.lock().is_some() {
+                        log(json!({"e": "stopping"}));
+                    }
                     w.stop_instance(false).await;
                 }
                 w.remotes.clear();
